@@ -400,6 +400,80 @@ Section Pass.
       + intros q p Hq. unfold owner_of. rewrite B1. apply B7. exact Hq.
       + intros i Hi. unfold owner_of. rewrite B1. apply B8. exact Hi.
   Qed.
+
+  (* ---- completeness: equal keyed sends share an owner when the payload hash
+     separates the payloads that occur under one key ------------------------------------------ *)
+
+  Definition hash_separates : Prop :=
+    forall i j, i < length all -> j < length all ->
+      c_uid (cmdat all i) = c_uid (cmdat all j) -> c_cno (cmdat all i) = c_cno (cmdat all j) ->
+      hashf (c_pay (cmdat all i)) = hashf (c_pay (cmdat all j)) ->
+      c_pay (cmdat all i) = c_pay (cmdat all j).
+
+  Lemma key_eq_cmd i j :
+    hash_separates -> i < length all -> j < length all ->
+    key_of (cmdat all i) = key_of (cmdat all j) -> cmdat all i = cmdat all j.
+  Proof.
+    intros HS Hi Hj E. unfold key_of in E. inversion E as [[E1 E2 E3]].
+    pose proof (HS i j Hi Hj E1 E2 E3) as E4.
+    destruct (cmdat all i), (cmdat all j). cbn in *. congruence.
+  Qed.
+
+  Lemma complete_A st :
+    hash_separates -> InvA (length all) st ->
+    forall i j, i < j -> j < length all -> keyed (cmdat all i) = true -> cmdat all i = cmdat all j -> False.
+  Proof.
+    intros HS [A1 A2 A3] i j Hij Hj Ki E.
+    assert (Kj : keyed (cmdat all j) = true) by (rewrite <- E; exact Ki).
+    destruct (A3 i ltac:(lia) Ki) as [a [X1 [X2 X3]]].
+    destruct (A3 j Hj Kj) as [b [Y1 [Y2 Y3]]].
+    rewrite E in X1. rewrite X1 in Y1. inversion Y1; subst b.
+    destruct Y3 as [Y3|Y3]; [lia|].
+    destruct X3 as [X3|X3].
+    - subst a. rewrite E, same_refl in Y3. discriminate.
+    - destruct (A2 _ _ X1) as [Z1 [Z2 Z3]].
+      assert (Ea : cmdat all a = cmdat all j) by (apply key_eq_cmd; auto; lia).
+      rewrite Ea, same_refl in Y3. discriminate.
+  Qed.
+
+  Lemma complete_B st ow pos :
+    hash_separates -> InvB (length all) st ow pos ->
+    forall i j, i < j -> j < length all -> keyed (cmdat all i) = true -> cmdat all i = cmdat all j ->
+    nth i ow 0 = nth j ow 0.
+  Proof.
+    intros HS I i j Hij Hj Ki E.
+    assert (Kj : keyed (cmdat all j) = true) by (rewrite <- E; exact Ki).
+    pose proof (ib_b_bound _ _ _ _ I) as Hb. rewrite Forall_forall in Hb.
+    (* the slot of an item is the first slot recorded under the item's key *)
+    assert (Hslot : forall x, x < length all -> keyed (cmdat all x) = true ->
+              seen_get (key_of (cmdat all x)) (snd st) = Some (nth x ow 0)).
+    { intros x Hx Kx. destruct (ib_b_owner _ _ _ _ I x Hx) as [p [P1 [P2 P3]]].
+      assert (Ep : cmdat all p = cmdat all x).
+      { destruct P3 as [P3|[_ P3]]; [subst; reflexivity|apply same_eq; exact P3]. }
+      assert (Kp : keyed (cmdat all p) = true) by (rewrite Ep; exact Kx).
+      destruct (ib_b_first _ _ _ _ I _ _ P1 Kp) as [o [O1 [O2 O3]]].
+      rewrite Ep in O1. rewrite O1. f_equal.
+      destruct O3 as [O3|[p0 [O3 O4]]]; [exact O3|]. exfalso.
+      destruct (ib_b_sound _ _ _ _ I _ _ O1) as [p0' [Q1 [Q2 Q3]]].
+      rewrite O3 in Q1. inversion Q1; subst p0'.
+      assert (Hp0 : p0 < length all) by (apply Hb; eapply nth_error_In; eauto).
+      assert (E0 : cmdat all p0 = cmdat all x) by (apply key_eq_cmd; auto).
+      rewrite Ep, E0, same_refl in O4. discriminate. }
+    pose proof (Hslot i ltac:(lia) Ki) as S1. pose proof (Hslot j Hj Kj) as S2.
+    rewrite E in S1. rewrite S1 in S2. inversion S2. reflexivity.
+  Qed.
+
+  Lemma pass_complete :
+    hash_separates ->
+    forall i j, i < j -> j < length all -> keyed (cmdat all i) = true -> cmdat all i = cmdat all j ->
+    let b := fst (nb_loop hashf all 0 all (nb_trivial all, [])) in
+    owner_of b i = owner_of b j.
+  Proof.
+    intros HS i j Hij Hj Ki E b.
+    destruct (loop_inv all 0 (nb_trivial all, []) eq_refl eq_refl (or_introl InvA_init)) as [HA|[ow [pos HB]]].
+    - exfalso. exact (complete_A _ HS HA i j Hij Hj Ki E).
+    - unfold owner_of, b. rewrite (ib_b_owners _ _ _ _ HB). exact (complete_B _ ow pos HS HB i j Hij Hj Ki E).
+  Qed.
 End Pass.
 
 (* ---- newIdempotentAppendBatch ------------------------------------------------------------- *)
